@@ -744,7 +744,11 @@ func main() {
 
 	phase("server")
 	// bounded progress: re-run every stalled history alone, twice
-	for _, h := range stalled {
+	sort.Slice(stalled, func(i, j int) bool { return stalled[i].Mode+fmt.Sprint(stalled[i].Case) < stalled[j].Mode+fmt.Sprint(stalled[j].Case) })
+	for k, h := range stalled {
+		if k >= 3 { // the re-runs are sequential and each may wait for the watchdog: keep the run bounded
+			break
+		}
 		stuck := 0
 		for rep := 0; rep < 2; rep++ {
 			var o outcome
